@@ -25,14 +25,17 @@ theorem pos (a : Zq q) : 0 < q := Nat.lt_of_le_of_lt (Nat.zero_le _) a.lt
 
 def ofNat (q : Nat) [NeZero q] (n : Nat) : Zq q := ⟨n % q, Nat.mod_lt _ (Nat.pos_of_ne_zero (NeZero.ne q))⟩
 
-/-- `b^e mod q` by square and multiply -/
-def powMod (b e q : Nat) : Nat :=
-  if h : e = 0 then 1 % q
-  else
-    let s := powMod b (e / 2) q
-    let s2 := s * s % q
-    if e % 2 = 1 then s2 * b % q else s2
-decreasing_by omega
+/-- `b^e mod q` by square and multiply; `fuel` bounds the number of bits of `e` -/
+def powModAux (b q : Nat) : Nat → Nat → Nat
+  | 0, _ => 1 % q
+  | fuel + 1, e =>
+    if e = 0 then 1 % q
+    else
+      let s := powModAux b q fuel (e / 2)
+      let s2 := s * s % q
+      if e % 2 = 1 then s2 * b % q else s2
+
+def powMod (b e q : Nat) : Nat := powModAux b q (e.log2 + 1) e
 
 instance : Add (Zq q) := ⟨fun a b => ⟨(a.val + b.val) % q, Nat.mod_lt _ a.pos⟩⟩
 instance : Mul (Zq q) := ⟨fun a b => ⟨(a.val * b.val) % q, Nat.mod_lt _ a.pos⟩⟩
